@@ -88,13 +88,13 @@ func init() {
 	register(&Prop{
 		ID:    "C03",
 		Level: "model_checking",
-		Rule:  "bounded-exhaustive enumeration against a set-disjointness reference model: every ordered pair of width-2 alignments over the 17-symbol alphabet (289 references x 289 queries) x {soft,hard} gaps x 4 letter-case layouts; a single differing column at every position of widths 1..12,99..101 (multi-digit positions); every sequence of 1..4 records from a 4-row menu (order/duplicates); thorough adds every width-3 pair over {A,C,R,N,-,?}. A case is one (reference, query row, gap mode); non-trivial = expected row lists at least one SNP; each case generated once",
+		Rule:  "bounded-exhaustive enumeration against a set-disjointness reference model: every ordered pair of width-2 alignments over the 17-symbol alphabet (289 references x 289 queries) x {soft,hard} gaps x 4 letter-case layouts; a single differing column at every position of widths 1..12,99..101 (multi-digit positions); every sequence of 1..4 records from a 4-row menu (order/duplicates); thorough adds every ordered pair of width-3 alignments over the full alphabet (4913 x 4913 x {soft,hard}). A case is one (reference, query row, gap mode); non-trivial = expected row lists at least one SNP; each case generated once",
 		Assumptions: []string{
 			"oracle: IUPAC base sets as bit masks in harness/ref_iupac.go; under --hard-gaps '-' is the empty set and empty/empty counts as disjoint",
 			"each call runs on the canonical schedule of the controlled scheduler with NumCPU=2 (schedule independence is C12's subject)",
 		},
 		Bounds: func(tier string) map[string]interface{} {
-			return map[string]interface{}{"alphabet": alphabet17, "width2_contexts": 289 * 289, "width3_subalphabet": map[string]string{"quick": "-", "thorough": "ACRN-?"}[tier], "max_width": 101, "max_records": 4}
+			return map[string]interface{}{"alphabet": alphabet17, "width2_contexts": 289 * 289, "width3_alphabet": map[string]string{"quick": "-", "thorough": alphabet17}[tier], "max_width": 101, "max_records": 4}
 		},
 		Plan: func(tier string) ([]string, *engine.JobResult) {
 			var jobs []string
@@ -103,7 +103,7 @@ func init() {
 			}
 			jobs = append(jobs, "pos", "order", "cli")
 			if tier == "thorough" {
-				for r := 0; r < 216; r += 12 {
+				for r := 0; r < 17*17*17; r += 64 {
 					jobs = append(jobs, fmt.Sprintf("w3:%d", r))
 				}
 			}
@@ -161,7 +161,7 @@ func init() {
 			case strings.HasPrefix(job, "w3:"):
 				var r0 int
 				fmt.Sscanf(job, "w3:%d", &r0)
-				sub := "ACRN-?"
+				sub := alphabet17
 				var all []string
 				for _, a := range sub {
 					for _, b := range sub {
@@ -170,7 +170,7 @@ func init() {
 						}
 					}
 				}
-				for r := r0; r < r0+12 && r < len(all); r++ {
+				for r := r0; r < r0+64 && r < len(all); r++ {
 					for _, hard := range []bool{false, true} {
 						c03Check(c03Case{all[r], all, hard}, res, true)
 						for _, q := range all {
